@@ -67,6 +67,17 @@ class Ghost:
     pass
 
 
+class PyObj:
+    """An opaque Python object whose behaviour is given by the contract, not by code: `attrs` (name -> value) are what attribute access yields,
+    `methods` (name -> f(engine, call_node, state, spec)) what a method call does, `call` what calling the object itself does."""
+
+    def __init__(self, kind, attrs=None, methods=None, call=None):
+        self.kind, self.attrs, self.methods, self.call = kind, attrs or {}, methods or {}, call
+
+    def __repr__(self):
+        return "<PyObj %s>" % self.kind
+
+
 class State:
     def __init__(self, env=None, pc=None):
         self.env = env if env is not None else {}
@@ -667,6 +678,8 @@ class Engine:
                 return base.ndim
         if base is None and e.attr in ("int64", "float64", "nan", "inf", "pi"):
             return ("np." + e.attr)
+        if isinstance(base, PyObj) and e.attr in base.attrs:
+            return base.attrs[e.attr]
         raise Unsupported("attribute %s" % e.attr)
 
     def ev_Call(self, e, st, spec):
@@ -702,6 +715,17 @@ class Engine:
                 return z3.If(c, self.to_int(a), self.to_int(b))
         if name in self.extra_builtins:
             return self.extra_builtins[name](self, e, st, spec)
+        if isinstance(fn, ast.Name) and isinstance(st.env.get(fn.id), PyObj) and st.env[fn.id].call is not None:
+            return st.env[fn.id].call(self, e, st, spec)
+        if isinstance(fn, ast.Attribute) and not (isinstance(fn.value, ast.Name) and fn.value.id in ("np", "math", "struct")):
+            try:
+                base = self.ev(fn.value, st, spec)
+            except Unsupported:
+                base = None
+            if isinstance(base, PyObj) and fn.attr in base.methods:
+                return base.methods[fn.attr](self, e, st, spec)
+            if isinstance(base, PyObj) and isinstance(base.attrs.get(fn.attr), PyObj) and base.attrs[fn.attr].call is not None:
+                return base.attrs[fn.attr].call(self, e, st, spec)
         if name == "abs":
             v = self.ev(args[0], st, spec)
             if isinstance(v, (int, float)):
@@ -832,6 +856,10 @@ class Engine:
             if nm in self.extra_builtins:
                 st = st.copy()
                 self.extra_builtins[nm](self, s.value, st, False)
+                return [("normal", st, None)]
+            if getattr(self.c, "objects", False):
+                st = st.copy()
+                self.ev(s.value, st)          # a call on a contract object (PyObj): evaluated for its effect on the ghost state
                 return [("normal", st, None)]
         raise Unsupported("expression statement %s at line %s" % (ast.unparse(s)[:40], s.lineno))
 
@@ -1001,7 +1029,7 @@ class Engine:
     def st_While(self, s, st):
         lid, spec = self.loop_spec(s)
         self.check_inv(st, spec, lid, "init", s)
-        mods = assigned_names(s.body) | self.ghost_mods(s.body)
+        mods = assigned_names(s.body) | self.ghost_mods(s.body) | set(getattr(self.c, "extra_mods", ()))
         h = st.copy()
         self.havoc(h, mods)
         self.assume_inv(h, spec)
